@@ -1,2 +1,3 @@
 import SSJ.Props.C16
 import SSJ.Props.C17
+import SSJ.Props.C03
